@@ -20,7 +20,7 @@ type GenOpts struct {
 }
 
 // ElPatterns: element patterns the generator draws from.
-var ElPatterns = []string{`^my-`, `^x-[a-z-]+$`, `^h[1-6]$`, `^(b|i|em)$`, `-`, `^[a-z]{1,3}$`, `^(svg|math|mtext|mi|g|path)$`, `^t[dhr]$`, `^my-x$`}
+var ElPatterns = []string{`^my-`, `^x-[a-z-]+$`, `^h[1-6]$`, `^(b|i|em)$`, `-`, `^[a-z]{1,3}$`, `^(svg|math|mtext|mi|g|path)$`, `^t[dhr]$`, `^my-x$`, `^my-widget$`, `^x-[a-zé]+$`}
 
 // ElPatternsDanger also match script/style.
 var ElPatternsDanger = []string{`.*`, `^s`, `^(script|style)$`, `(?i)script`, `^.{5,6}$`}
@@ -187,7 +187,7 @@ func RandomOps(r *rand.Rand, o GenOpts) []Op {
 		ops = append(ops, Op{K: KSchemeCustom, Names: []string{gen.Pick(r, []string{"http", "https", "ftp", "x-app"})}, Check: gen.Pick(r, []string{"host-example", "host-cdn", "never", "always", "no-query"})})
 	}
 	if r.Intn(8) == 0 {
-		ops = append(ops, Op{K: KSchemesMatching, Re: gen.Pick(r, []string{`^x-`, `^(ftp|sftp)$`, `^t`}), Fresh: r.Intn(2) == 0})
+		ops = append(ops, Op{K: KSchemesMatching, Re: gen.Pick(r, []string{`^x-`, `^(ftp|sftp)$`, `^t`, `ws|wss`, `ftp|ftps`, `^(web\+[a-z]+)$`}), Fresh: r.Intn(2) == 0})
 	}
 	if r.Intn(8) == 0 {
 		ops = append(ops, Op{K: KDataURIImages})
